@@ -20,12 +20,13 @@ import panelmat
 from panelmat import fr
 
 TOL, TOL_NL, TOL_PLACE, TOL_PSD = 38, 34, 40, 30
-OWN = ["KF_C13_AssemblyWithoutConnectionsRaises", "KF_C13_Blade2DWithoutFlangeRaises", "KF_C13_Blade1DMassCouplingDoubled"]
+OWN = ["KF_C13_AssemblyWithoutConnectionsRaises", "KF_C13_Blade2DWithoutFlangeRaises", "KF_C13_Blade1DMassCouplingDoubled",
+       "KF_C13_TStiffBaseStripInBayCoordinates"]
 INHERITED = {"KF_C04_OffsetCouplingSign": "C04", "KF_C20_Assembly_calc_fint_sum": "C20",
              "KF_C20_Panel_calc_kM_model": "C20"}
 INVS = ["RangesPartition", "RangesOrdered", "SizeIsSum", "PlacementsInside", "PlaceAgrees", "GlobalSymmetric",
         "ScaleDominatesGlobal", "ProbesNonNegativeGlobal", "OnlyJoinedBlocks", "SkinPartitionIndependent", "AsmAtRest",
-        "FintConnLocal"]
+        "FintConnLocal", "BeamMassPSD", "StiffenerSymmetricPSD"]
 
 
 def quiet(f, *a, **k):
@@ -231,6 +232,8 @@ def build_bay(bd, tile_loads=None, stiff_loads=False):
     stiffs = []
     for i, sd in enumerate(bd["stiffs"]):
         kw = dict(ys=flt(sd["ys"]))
+        if "mu" in sd:
+            kw["mu"] = flt(sd["mu"])
         if sd["base"]:
             kw.update(bb=flt(sd["bb"]), **lam_args(sd["blam"], "b"))
         if sd["flange"]:
@@ -330,6 +333,28 @@ def observe_place(bd, q):
     return dict(q=q, size=size, comps=[enc_mat(A) for A in comps], obs=enc_mat(K)), psd, beams
 
 
+def observe_stiff(bd, r):
+    """stand-alone matrix (own size, finalised) of 2-D stiffener r.k with the part loads of r, on a fresh bay after the
+    bay's calc_k0 (documented order)"""
+    b, stiffs = build_bay(bd)
+    quiet(b.calc_k0, silent=True)
+    s, sd = stiffs[r["k"] - 1], bd["stiffs"][r["k"] - 1]
+    if s.flange is not None:
+        s.flange.Nxx, s.flange.Nyy, s.flange.Nxy = (flt(x) for x in r["Nf"])
+    if sd["kind"] == "t2d":
+        s.base.Nxx, s.base.Nyy, s.base.Nxy = (flt(x) for x in r["Nb"])
+    n0, own = n0_of(bd), own_size(sd)
+    # as the bay calls it (finalize=False: upper triangle), then mirrored by the package's own finalisation
+    from compmech.sparse import finalize_symmetric_matrix
+    kw = dict(size=n0 + own, row0=n0 if own else 0, col0=n0 if own else 0, silent=True, finalize=False)
+    if r["mat"] != "k0":
+        quiet(s.calc_k0, **kw)
+    quiet(getattr(s, "calc_" + r["mat"]), **kw)
+    M = getattr(s, r["mat"])
+    A = dense(finalize_symmetric_matrix(M)) if hasattr(M, "toarray") else np.zeros((n0 + own, n0 + own))
+    return dict(req=r, obs=enc_mat(A))
+
+
 def observe_bay_fext(bd, r):
     try:
         b, stiffs = build_bay(bd)
@@ -374,12 +399,22 @@ LAMS = [dict(stack=[dict(dir=[0, 1], t=rat(Fraction(1, 8)), mat=[rat(10), rat(2)
         dict(stack=[dict(dir=[1, 1], t=rat(Fraction(1, 4)), mat=[rat(7), rat(7), rat(Fraction(1, 4))])], off=rat(0))]
 
 
+def random_lam(rng):
+    """a laminate of the stiffener parts: one of two fixed ones or a seeded random rational one (reference surface at mid-plane)"""
+    if rng.random() < 0.5:
+        return rng.choice(LAMS)
+    stack, _ = c01.random_def(rng)
+    return dict(stack=c01.enc_stack(stack[:3]), off=rat(0))
+
+
 def random_stiff_bay(rng):
-    """random skin, 1..3 dyadic cuts, 1..4 stiffeners of random kinds / compositions at random tile edges"""
+    """random skin (flat / curved, sometimes with a laminate offset), 1..3 dyadic cuts, 1..4 stiffeners of random kinds /
+    compositions at random tile edges (off-centre), narrow and wide bases, own laminates, sometimes an own density"""
     bd = random_skin_bay(rng)
     pd = bd["skin"]
     pd["m"], pd["n"] = rng.randint(2, 3), rng.randint(2, 3)
-    pd["off"] = rat(0)
+    if rng.random() < 0.7:
+        pd["off"] = rat(0)
     b = fr(pd["b"])
     fracs = sorted(rng.sample(range(8, 56), rng.randint(1, 3)))
     bd["cuts"] = [rat(Fraction(f, 64) * b) for f in fracs]
@@ -391,12 +426,29 @@ def random_stiff_bay(rng):
             base = False                 # a padup makes calc_kM raise (C20's finding); exercised on the lattice
         elif kind == "b2d":
             base, flange = rng.choice([(True, True), (False, True), (False, True), (True, False)])
-        stiffs.append(dict(kind=kind, ys=rng.choice(bd["cuts"]), base=base, flange=flange,
-                           bb=rat(Fraction(rng.randint(1, 3), 8)), bf=rat(Fraction(rng.randint(1, 4), 8)),
-                           mb=rng.randint(1, 2), nb=rng.randint(1, 2), mf=2, nf=rng.randint(1, 2),
-                           blam=rng.choice(LAMS), flam=rng.choice(LAMS)))
+        ys = rng.choice(bd["cuts"])
+        room = 2 * min(fr(ys), b - fr(ys))          # the base strip stays inside the bay
+        sd = dict(kind=kind, ys=ys, base=base, flange=flange,
+                  bb=rat(room * Fraction(rng.choice([1, 2, 4, 8, 12, 16]), 16)), bf=rat(Fraction(rng.randint(1, 6), 8)),
+                  mb=rng.randint(1, 2), nb=rng.randint(1, 3), mf=rng.randint(2, 3), nf=rng.randint(1, 2),
+                  blam=random_lam(rng), flam=random_lam(rng))
+        if rng.random() < 0.5:
+            sd["mu"] = rat(Fraction(rng.randint(1, 40), 8))
+        stiffs.append(sd)
     bd["stiffs"] = stiffs
     return bd
+
+
+def stiff_reqs(rng, bd, nmat):
+    """requests for the derived stand-alone matrices of the 2-D stiffeners of a bay, with random part loads"""
+    out = []
+    for i, sd in enumerate(bd["stiffs"]):
+        if sd["kind"] == "b1d":
+            continue
+        for mat in rng.sample(["k0", "kG0", "kM"], nmat):
+            out.append(dict(q="stiff", k=i + 1, mat=mat, Nf=[rat(Fraction(rng.randint(-12, 12), 4)) for _ in range(3)],
+                            Nb=[rat(Fraction(rng.randint(-12, 12), 4)) for _ in range(3)]))
+    return out
 
 
 # ---------------------------------------------------------------------------------------------------------------------
@@ -430,6 +482,10 @@ def record(events, meta, d, r, only=None):
             emit("asm", body, "PanelAssembly")
     elif r["q"] == "fext":
         emit("bay", observe_bay_fext(d, r), "StiffPanelBay.calc_fext")
+    elif r["q"] == "stiff":
+        sd = d["stiffs"][r["k"] - 1]
+        emit("bay", observe_stiff(d, r), "%s.calc_%s (derived stand-alone matrix of stiffener %d)"
+             % ("BladeStiff2D" if sd["kind"] == "b2d" else "TStiff2D", r["mat"], r["k"]))
     elif not d["stiffs"]:
         emit("bay", observe_skin_bay(d, r), "StiffPanelBay (skin tiles)")
     elif r["q"] == "size":
@@ -473,6 +529,9 @@ def judge(rep, events, meta, tag):
                 if e["ev"] == "bay" and r.get("q") == "b1dmass":
                     how = (" equals the exact beam mass with doubled coupling; %s entries differ from the literal one; negative "
                            "quadratic form along the observed eigenvector certified exactly: %s" % (v[1][0], v[1][1]))
+                elif e["ev"] == "bay" and r.get("q") == "stiff":
+                    how = (" (%s of stiffener %d) equals the derived matrix only under this deviation; %s entries differ from the "
+                           "literal one" % (r["mat"], r["k"], v[1][0]))
                 rep.known(name, desc + how)          # not listed as open -> VIOLATION by Report.finish
             elif listed_open(name):
                 inherited_seen.add(name)           # another property's listed finding, reported by its own check
@@ -544,7 +603,7 @@ def phase(rep, tier, seed, only=None, tag="c13"):
         else:
             seen.add(("panels", len(d["pds"]), len(d["conns"])))
     need = [("asm", q) for q in ("size", "k0", "kG0", "kM", "fext", "fint", "kT")] + \
-           [("bay", q) for q in ("size", "k0", "kG0", "kM", "place", "fext", "b1dmass")] + \
+           [("bay", q) for q in ("size", "k0", "kG0", "kM", "place", "fext", "b1dmass", "stiff")] + \
            [("cuts", k, False) for k in range(5)] + [("panels", 1, 0), ("panels", 4, 2)]
     missing = [x for x in need if x not in seen]
     if missing and not only:
@@ -579,6 +638,7 @@ def phase(rep, tier, seed, only=None, tag="c13"):
         bd = random_stiff_bay(rng)
         if not only:
             pairs += [(bd, dict(q="size")), (bd, dict(q="place"))]
+            pairs += [(bd, r) for r in stiff_reqs(rng, bd, 2 if tier == "quick" else 3)]
     events, meta = [], {}
     gc.collect()
     gc.freeze()          # the package calls gc.collect() in every method: keep the parsed lattice out of its way
@@ -615,10 +675,15 @@ def phase(rep, tier, seed, only=None, tag="c13"):
     rep.assumptions += [
         "panels, skins, connections, load vectors: judged entry by entry against the specification's exact values, tolerance "
         "2^-%d of the term-magnitude scale (2^-%d for the Gauss-integrated fint / kT)" % (TOL, TOL_NL),
-        "stiffened bays: stiffener internals are not re-derived; the code's own stand-alone component matrices (twin bay, own "
-        "size) are placed by the specification's placement map and must reproduce the assembled matrix within 2^-%d of the "
-        "summed entry magnitudes; stiffener k0 / kM contributions: exact symmetry, observed smallest eigenvalue >= -2^-%d * norm"
-        % (TOL_PLACE, TOL_PSD),
+        "stiffened bays, where things land: the code's own stand-alone component matrices (twin bay, own size) are placed by "
+        "the specification's placement map and must reproduce the assembled matrix within 2^-%d of the summed entry magnitudes; "
+        "stiffener k0 / kM contributions: exact symmetry, observed smallest eigenvalue >= -2^-%d * norm" % (TOL_PLACE, TOL_PSD),
+        "stiffened bays, what lands: k0 / kG0 / kM of BladeStiff2D (padup strip in the bay's series, flange plate, skin-flange "
+        "BFycte connection) and TStiff2D (base and flange panels, skin-base face-to-face connection over the base strip with "
+        "mapped-argument integrals, base-flange BFycte connection, penalty constants) are derived in Assembly.tla from PanelOps / "
+        "ConnectionOps / Bardell and the observed stand-alone matrices are judged entry by entry at 2^-%d of the term-magnitude "
+        "scale; of BladeStiff1D only the flange mass is derived (its beam stiffness / geometric stiffness with the equivalent "
+        "moduli E1, F1, S1, Jxx stay on the placed-code-matrices route)" % TOL,
         "findings owned by other properties (%s) are accepted here only while known_findings.json lists them as open"
         % ", ".join(sorted(INHERITED)),
         "assemblies use the 3-dof CLT models",
